@@ -185,6 +185,17 @@ func (fx *FuncExec) execCallInner(st *State, instr ssa.Instruction, c *ssa.CallC
 		switch full {
 		case "(*sync.Mutex).Lock", "(*sync.RWMutex).Lock", "(*sync.RWMutex).RLock":
 			fx.execLock(st, args[0], instr.Pos())
+			// remember the mode: a read lock does not license writes to the guarded state
+			if key, _, _, _ := fx.lockTarget(args[0]); key != "" {
+				if st.rlocks == nil {
+					st.rlocks = map[string]string{}
+				}
+				if full == "(*sync.RWMutex).RLock" {
+					st.rlocks[key] = "true"
+				} else {
+					st.rlocks[key] = "false"
+				}
+			}
 			return Val{}
 		case "(*sync.Mutex).Unlock", "(*sync.RWMutex).Unlock", "(*sync.RWMutex).RUnlock":
 			fx.execUnlock(st, args[0], instr.Pos())
@@ -1097,6 +1108,11 @@ func (fx *FuncExec) checkGuard(st *State, addr Val, pos token.Pos, rw string) {
 		// `requires held(x.mutex)` is recorded as an initially held lock
 	}
 	fx.oblige("guard", st, held, fmt.Sprintf("%s of guarded field %s.%s without holding %s", rw, ts.Name, fname, ts.GuardedBy), pos)
+	if rw == "write" {
+		if rm, ok := st.rlocks[key]; ok && rm != "false" {
+			fx.oblige("guard", st, not(and(held, rm)), fmt.Sprintf("write of guarded field %s.%s while holding %s only for reading (RLock)", ts.Name, fname, ts.GuardedBy), pos)
+		}
+	}
 	if rw == "read" && held != "true" && l.T != nil {
 		// an unlocked read may observe whatever other goroutines could have left there: any value
 		// the guarantee allows relative to the state this function was entered in
@@ -1127,8 +1143,59 @@ func (fx *FuncExec) checkGuard(st *State, addr Val, pos token.Pos, rw string) {
 }
 
 func (fx *FuncExec) checkGuardMap(st *State, m ssa.Value, pos token.Pos) {
-	// the map value was loaded from a guarded field: the load itself was checked; updates through it
-	// are checked at the load of the field.
+	// the map value was loaded from a guarded field: the load itself was checked (lock held); what is
+	// checked here is the MODE - a map reached through a guarded field must not be written while the
+	// lock is held only for reading
+	v := m
+	for depth := 0; depth < 6; depth++ {
+		switch x := v.(type) {
+		case *ssa.Lookup:
+			v = x.X
+			continue
+		case *ssa.UnOp:
+			fa, ok := x.X.(*ssa.FieldAddr)
+			if !ok {
+				return
+			}
+			av, ok := fx.vals[fa]
+			if !ok || av.Loc == nil {
+				return
+			}
+			l := av.Loc
+			for l.Kind == LSub {
+				l = l.Parent
+			}
+			if l.Kind != LField || l.Owner == nil {
+				return
+			}
+			ts := fx.V.contracts.Types[typeKey(l.Owner)]
+			if ts == nil || ts.GuardedBy == "" {
+				return
+			}
+			fname := l.OwnerS.Field(l.Field).Name()
+			guarded := false
+			for _, g := range ts.Guarded {
+				if g == fname {
+					guarded = true
+				}
+			}
+			if !guarded || fx.freshRefs[l.Ref] {
+				return
+			}
+			mi := fieldIndex(l.OwnerS, ts.GuardedBy)
+			key := fx.canonKey(fmt.Sprintf("%s[%s]", fieldKey(l.Owner, l.OwnerS, mi), l.Ref))
+			if rm, ok := st.rlocks[key]; ok && rm != "false" {
+				held := st.locks[key]
+				if held == "" {
+					held = "false"
+				}
+				fx.oblige("guard", st, not(and(held, rm)), fmt.Sprintf("write to the map in guarded field %s.%s while holding %s only for reading (RLock)", ts.Name, fname, ts.GuardedBy), pos)
+			}
+			return
+		default:
+			return
+		}
+	}
 }
 
 // staticOrd numbers the Lock (resp. Unlock) calls of the function in source order, so that
